@@ -173,6 +173,11 @@ class TransposePermutationLinearOperator(AbstractPermutationLinearOperator):
         self._matmul_check_shape(rhs)
         return rhs.unflatten(dim=-2, sizes=(self.m, self.m)).transpose(-3, -2).flatten(start_dim=-3, end_dim=-2)
 
+    def _get_indices(self, row_index, col_index, *batch_indices) -> torch.Tensor:
+        # row i = a * m + b of the operator has its single one in column b * m + a
+        target_col = row_index.fmod(self.m) * self.m + torch.div(row_index, self.m, rounding_mode="floor")
+        return torch.eq(target_col, col_index).to(self.dtype)
+
     def _size(self) -> torch.Size:
         return torch.Size((self.n, self.n))
 
